@@ -308,6 +308,7 @@ type HarnessRun struct {
 	results    []pathResult
 	stepsHit   int
 	truncated  bool
+	stoppedOnViolation bool
 	funcs      map[string]bool
 	endCounts  map[string]int
 	needsEngine bool
@@ -348,6 +349,9 @@ func (h *HarnessRun) abandoned(s string) {
 	h.mu.Unlock()
 }
 
+// maxViolatingPaths stops a harness once this many violating paths are recorded.
+const maxViolatingPaths = 12
+
 func runHarness(prog *ssa.Program, fn *ssa.Function, cfg *RunConfig) *HarnessRun {
 	h := &HarnessRun{name: fn.Name(), fn: fn, prog: prog, cfg: cfg,
 		covers: map[string]int{}, incon: map[string]int{}, aband: map[string]int{},
@@ -373,6 +377,15 @@ func runHarness(prog *ssa.Program, fn *ssa.Function, cfg *RunConfig) *HarnessRun
 					h.cond.Wait()
 				}
 				if len(h.queue) == 0 {
+					h.mu.Unlock()
+					h.cond.Broadcast()
+					return
+				}
+				if len(h.violations) >= maxViolatingPaths {
+					// enough counterexamples: a broken tree often explodes after the
+					// failing check, and the verdict does not need the rest
+					h.stoppedOnViolation = true
+					h.queue = nil
 					h.mu.Unlock()
 					h.cond.Broadcast()
 					return
